@@ -274,25 +274,18 @@ void mmd_export_token_beamer(DString * out, const char * source, token * t, scra
 					break;
 			}
 
+			header_clean_trailing_whitespace(t->child, source);
 			mmd_export_token_tree_beamer(out, source, t->child, scratch);
 			trim_trailing_whitespace_d_string(out);
 
 			if (scratch->extensions & EXT_NO_LABELS) {
 				print_const("}");
 			} else {
-				temp_token = manual_label_from_header(t, source);
-
-				if (temp_token) {
-					temp_char = label_from_token(source, temp_token);
-				} else {
-					temp_char = label_from_token(source, t);
-				}
-
+				// Same label as the cross-references to this header use
+				// (a Setext underline is not part of it)
+				temp_char = label_from_header(source, t, scratch);
 				printf("}\n\\label{%s}", temp_char);
-
-				if (temp_char) {
-					free(temp_char);
-				}
+				free(temp_char);
 			}
 
 			scratch->padded = 0;
